@@ -71,7 +71,10 @@ Init == /\ model \in Models
         /\ zq \in (IF model = "bcx" /\ prior = "none" /\ ~flow THEN {0, 2, 3} ELSE {0})
         /\ mag \in (IF ne = 2 /\ te = 3 /\ prior = "none" /\ ~flow THEN MagExps ELSE {0})
         /\ (model \in {"bcx", "bes"} => /\ ne = 2 /\ te = 3 /\ \A s \in Names : dens[s] >= 0 \/ dens[s] = Absent
-                                        /\ \E s \in Names : dens[s] > 0 /\ Charge(s) > 0)
+                                        \* an ionised species must be there for Z_eff - unless the CX receiver density is zero:
+                                        \* the CX model returns before it asks for anything (no ion at all is then explored too)
+                                        /\ \/ \E s \in Names : dens[s] > 0 /\ Charge(s) > 0
+                                           \/ model = "bcx" /\ dens["c6"] = 0)
 
 \* bulk velocity per species in tenths of the beam speed (beam along +z); each relative velocity (-vx, -vy, 10 - vz) has an
 \* integer length, so the interaction energy / beam energy = |v_b - v_s|^2 / v_b^2 is the exact fraction below
